@@ -1,16 +1,25 @@
 SPECIFICATION Spec
 CONSTANTS
   Keys = {"a"}
-  MaxLen = 2
-  MaxWrites = 3
+  MaxLen = 4
+  MaxWrites = 4
   MaxSteps = 1000
-  MaxPool = 2
+  MaxPool = 1
   KeepPath = FALSE
   EmitStep = FALSE
   WithReopen = TRUE
   WithCenter = TRUE
   Repaired = TRUE
+  Contents = {{}, {"a"}}
+  SizeClasses = {"s"}
+  MaxBig = 0
+  WriteLimit = 128
+  MergeLimit = 333
+  CacheChoices = {TRUE, FALSE}
+  ReadOptional = TRUE
+  Purge = TRUE
 VIEW view
-INVARIANTS TypeOK ReadsConsistent
-PROPERTIES MergeAndReopenInvisible
+CONSTRAINT NoRemove
+INVARIANTS TypeOK ReadsConsistent ImplStateAgrees CacheFresh BatchesCarryEveryRecord
+PROPERTIES MergeAndReopenInvisible MemoryInvisible
 CHECK_DEADLOCK FALSE
